@@ -37,6 +37,15 @@ pub open spec fn sem(t: Tree, env: Env) -> bool decreases t {
     }
 }
 pub open spec fn mk(l: u32, a: Tree, b: Tree) -> Tree { Tree::Inner(l, Box::new(a), Box::new(b)) }
+// "re-fuelling" lemmas: unfolding a recursive spec function yields calls at reduced fuel that
+// neither unfold again nor match triggers; these restate one unfolding step over `mk` at full fuel.
+pub broadcast proof fn lemma_sem_mk(l: u32, a: Tree, b: Tree, env: Env)
+    ensures #[trigger] sem(mk(l, a, b), env) == (if env(l as int) { sem(a, env) } else { sem(b, env) }) {}
+pub broadcast proof fn lemma_wf_mk(l: u32, a: Tree, b: Tree)
+    ensures #[trigger] wf(mk(l, a, b)) == (l < u32::MAX && (l as int) < top(a) && (l as int) < top(b) && a != b && wf(a) && wf(b)) {}
+pub broadcast proof fn lemma_below_mk(l: u32, a: Tree, b: Tree, n: int)
+    ensures #[trigger] below(mk(l, a, b), n) == ((l as int) < n && below(a, n) && below(b, n)) {}
+pub broadcast group leaf_lemmas { lemma_sem_mk, lemma_wf_mk, lemma_below_mk }
 pub open spec fn is_inner(t: Tree) -> bool { t is Inner }
 /// propositional oracle for the eight binary operators, written from the
 /// property statement (operator numbers are those of `BDDOp as u8`, which is
@@ -51,6 +60,14 @@ pub open spec fn op_sem(op: u8, a: bool, b: bool) -> bool {
     else if op == BDDOp::Imp as u8 { !a || b }
     else { !a && b }
 }
+pub open spec fn prop_and(a: bool, b: bool) -> bool { a && b }
+pub open spec fn prop_or(a: bool, b: bool) -> bool { a || b }
+pub open spec fn prop_nand(a: bool, b: bool) -> bool { !(a && b) }
+pub open spec fn prop_nor(a: bool, b: bool) -> bool { !(a || b) }
+pub open spec fn prop_xor(a: bool, b: bool) -> bool { a != b }
+pub open spec fn prop_equiv(a: bool, b: bool) -> bool { a == b }
+pub open spec fn prop_imp(a: bool, b: bool) -> bool { a ==> b }
+pub open spec fn prop_imp_strict(a: bool, b: bool) -> bool { !a && b }
 pub open spec fn is_bin(op: u8) -> bool { BDDOp::And as u8 <= op <= BDDOp::ImpStrict as u8 }
 pub open spec fn commutative(op: u8) -> bool { BDDOp::And as u8 <= op <= BDDOp::Equiv as u8 }
 
@@ -105,6 +122,17 @@ impl<'a, M: Manager> Node<'a, M> {
     { match self { Node::Inner(node) => node, Node::Terminal(_) => vstd::pervasive::unreached() } }
     pub fn is_any_terminal(self) -> (r: bool) ensures r == (self is Terminal)
     { match self { Node::Inner(_) => false, Node::Terminal(_) => true } }
+    #[verifier::external_body]
+    pub fn is_terminal(self, terminal: &M::Terminal) -> (r: bool)
+        ensures r == (self is Terminal && self->Terminal_0.tview() == terminal.tview())
+    { unimplemented!() }
+}
+/// stub of fixedbitset::FixedBitSet (only `contains` is used by verified code)
+pub struct FixedBitSet { pub bits: Vec<bool> }
+impl FixedBitSet {
+    pub open spec fn spec_contains(&self, i: int) -> bool { 0 <= i < self.bits@.len() && self.bits@[i] }
+    pub fn contains(&self, bit: usize) -> (r: bool) ensures r == self.spec_contains(bit as int)
+    { if bit < self.bits.len() { self.bits[bit] } else { false } }
 }
 pub trait LevelView<E: Edge, N: InnerNode<E>> {
     spec fn level_no_spec(&self) -> u32;
@@ -134,7 +162,7 @@ pub trait Manager: Sized {
         ensures r.level_no_spec() == no;
     fn var_to_level(&self, var: VarNo) -> (l: LevelNo)
         requires (var as int) < self.num_levels_spec()
-        ensures l as int == self.var_to_level_spec(var as int), (l as int) < self.num_levels_spec();
+        ensures l as int == self.var_to_level_spec(var as int), (l as int) < self.num_levels_spec() <= u32::MAX as int;
 }
 pub mod oxidd_core {
     pub use super::LevelView;
@@ -213,6 +241,9 @@ impl CacheOp for BDDOp {
 }
 
 // ---------- units: crates/oxidd-rules-bdd/src/simple/mod.rs ----------
+mod simple {
+use super::*;
+broadcast use leaf_lemmas;
 //@fn file=crates/oxidd-rules-bdd/src/simple/mod.rs path=fn:terminal_bin cases=OP:BDDOp::And~as~u8,BDDOp::Or~as~u8,BDDOp::Nand~as~u8,BDDOp::Nor~as~u8,BDDOp::Xor~as~u8,BDDOp::Equiv~as~u8,BDDOp::Imp~as~u8,BDDOp::ImpStrict~as~u8 expect=R4:4 props=C02,C06
 //@spec
     requires is_bin(OP), edge_ok::<M::Edge>(), ok(f.view(), m.num_levels_spec()), ok(g.view(), m.num_levels_spec()),
@@ -239,6 +270,7 @@ impl CacheOp for BDDOp {
 
 mod apply_rec {
 use super::*;
+broadcast use leaf_lemmas;
 //@fn file=crates/oxidd-rules-bdd/src/simple/apply_rec.rs path=fn:apply_not nodecr expect=R5:1 props=C02,C06
 //@spec
     requires edge_ok::<M::Edge>(), ok(f.view(), manager.num_levels_spec()),
@@ -254,6 +286,135 @@ use super::*;
     requires edge_ok::<M::Edge>(), ok(f.view(), manager.num_levels_spec()), ok(g.view(), manager.num_levels_spec()), ok(h.view(), manager.num_levels_spec()),
     ensures res is Ok ==> ite_post(f.view(), g.view(), h.view(), manager.num_levels_spec(), res->Ok_0.view()),
 //@end
+//@fn file=crates/oxidd-rules-bdd/src/simple/apply_rec.rs path=impl:BooleanFunction~for~BDDFunction<F>/fn:and_edge props=C02
+//@header
+fn and_edge<M>(manager: &M, lhs: &M::Edge, rhs: &M::Edge) -> (res: AllocResult<M::Edge>)
+where M: Manager<Terminal = BDDTerminal> + HasApplyCache<M, BDDOp>, M::InnerNode: HasLevel,
+//@spec
+    requires edge_ok::<M::Edge>(), ok(lhs.view(), manager.num_levels_spec()), ok(rhs.view(), manager.num_levels_spec()),
+    ensures res is Ok ==> ok(res->Ok_0.view(), manager.num_levels_spec())
+        && forall|env: Env| #[trigger] sem(res->Ok_0.view(), env) == prop_and(sem(lhs.view(), env), sem(rhs.view(), env)),
+//@end
+//@fn file=crates/oxidd-rules-bdd/src/simple/apply_rec.rs path=impl:BooleanFunction~for~BDDFunction<F>/fn:or_edge props=C02
+//@header
+fn or_edge<M>(manager: &M, lhs: &M::Edge, rhs: &M::Edge) -> (res: AllocResult<M::Edge>)
+where M: Manager<Terminal = BDDTerminal> + HasApplyCache<M, BDDOp>, M::InnerNode: HasLevel,
+//@spec
+    requires edge_ok::<M::Edge>(), ok(lhs.view(), manager.num_levels_spec()), ok(rhs.view(), manager.num_levels_spec()),
+    ensures res is Ok ==> ok(res->Ok_0.view(), manager.num_levels_spec())
+        && forall|env: Env| #[trigger] sem(res->Ok_0.view(), env) == prop_or(sem(lhs.view(), env), sem(rhs.view(), env)),
+//@end
+//@fn file=crates/oxidd-rules-bdd/src/simple/apply_rec.rs path=impl:BooleanFunction~for~BDDFunction<F>/fn:nand_edge props=C02
+//@header
+fn nand_edge<M>(manager: &M, lhs: &M::Edge, rhs: &M::Edge) -> (res: AllocResult<M::Edge>)
+where M: Manager<Terminal = BDDTerminal> + HasApplyCache<M, BDDOp>, M::InnerNode: HasLevel,
+//@spec
+    requires edge_ok::<M::Edge>(), ok(lhs.view(), manager.num_levels_spec()), ok(rhs.view(), manager.num_levels_spec()),
+    ensures res is Ok ==> ok(res->Ok_0.view(), manager.num_levels_spec())
+        && forall|env: Env| #[trigger] sem(res->Ok_0.view(), env) == prop_nand(sem(lhs.view(), env), sem(rhs.view(), env)),
+//@end
+//@fn file=crates/oxidd-rules-bdd/src/simple/apply_rec.rs path=impl:BooleanFunction~for~BDDFunction<F>/fn:nor_edge props=C02
+//@header
+fn nor_edge<M>(manager: &M, lhs: &M::Edge, rhs: &M::Edge) -> (res: AllocResult<M::Edge>)
+where M: Manager<Terminal = BDDTerminal> + HasApplyCache<M, BDDOp>, M::InnerNode: HasLevel,
+//@spec
+    requires edge_ok::<M::Edge>(), ok(lhs.view(), manager.num_levels_spec()), ok(rhs.view(), manager.num_levels_spec()),
+    ensures res is Ok ==> ok(res->Ok_0.view(), manager.num_levels_spec())
+        && forall|env: Env| #[trigger] sem(res->Ok_0.view(), env) == prop_nor(sem(lhs.view(), env), sem(rhs.view(), env)),
+//@end
+//@fn file=crates/oxidd-rules-bdd/src/simple/apply_rec.rs path=impl:BooleanFunction~for~BDDFunction<F>/fn:xor_edge props=C02
+//@header
+fn xor_edge<M>(manager: &M, lhs: &M::Edge, rhs: &M::Edge) -> (res: AllocResult<M::Edge>)
+where M: Manager<Terminal = BDDTerminal> + HasApplyCache<M, BDDOp>, M::InnerNode: HasLevel,
+//@spec
+    requires edge_ok::<M::Edge>(), ok(lhs.view(), manager.num_levels_spec()), ok(rhs.view(), manager.num_levels_spec()),
+    ensures res is Ok ==> ok(res->Ok_0.view(), manager.num_levels_spec())
+        && forall|env: Env| #[trigger] sem(res->Ok_0.view(), env) == prop_xor(sem(lhs.view(), env), sem(rhs.view(), env)),
+//@end
+//@fn file=crates/oxidd-rules-bdd/src/simple/apply_rec.rs path=impl:BooleanFunction~for~BDDFunction<F>/fn:equiv_edge props=C02
+//@header
+fn equiv_edge<M>(manager: &M, lhs: &M::Edge, rhs: &M::Edge) -> (res: AllocResult<M::Edge>)
+where M: Manager<Terminal = BDDTerminal> + HasApplyCache<M, BDDOp>, M::InnerNode: HasLevel,
+//@spec
+    requires edge_ok::<M::Edge>(), ok(lhs.view(), manager.num_levels_spec()), ok(rhs.view(), manager.num_levels_spec()),
+    ensures res is Ok ==> ok(res->Ok_0.view(), manager.num_levels_spec())
+        && forall|env: Env| #[trigger] sem(res->Ok_0.view(), env) == prop_equiv(sem(lhs.view(), env), sem(rhs.view(), env)),
+//@end
+//@fn file=crates/oxidd-rules-bdd/src/simple/apply_rec.rs path=impl:BooleanFunction~for~BDDFunction<F>/fn:imp_edge props=C02
+//@header
+fn imp_edge<M>(manager: &M, lhs: &M::Edge, rhs: &M::Edge) -> (res: AllocResult<M::Edge>)
+where M: Manager<Terminal = BDDTerminal> + HasApplyCache<M, BDDOp>, M::InnerNode: HasLevel,
+//@spec
+    requires edge_ok::<M::Edge>(), ok(lhs.view(), manager.num_levels_spec()), ok(rhs.view(), manager.num_levels_spec()),
+    ensures res is Ok ==> ok(res->Ok_0.view(), manager.num_levels_spec())
+        && forall|env: Env| #[trigger] sem(res->Ok_0.view(), env) == prop_imp(sem(lhs.view(), env), sem(rhs.view(), env)),
+//@end
+//@fn file=crates/oxidd-rules-bdd/src/simple/apply_rec.rs path=impl:BooleanFunction~for~BDDFunction<F>/fn:imp_strict_edge props=C02
+//@header
+fn imp_strict_edge<M>(manager: &M, lhs: &M::Edge, rhs: &M::Edge) -> (res: AllocResult<M::Edge>)
+where M: Manager<Terminal = BDDTerminal> + HasApplyCache<M, BDDOp>, M::InnerNode: HasLevel,
+//@spec
+    requires edge_ok::<M::Edge>(), ok(lhs.view(), manager.num_levels_spec()), ok(rhs.view(), manager.num_levels_spec()),
+    ensures res is Ok ==> ok(res->Ok_0.view(), manager.num_levels_spec())
+        && forall|env: Env| #[trigger] sem(res->Ok_0.view(), env) == prop_imp_strict(sem(lhs.view(), env), sem(rhs.view(), env)),
+//@end
+//@fn file=crates/oxidd-rules-bdd/src/simple/apply_rec.rs path=impl:BooleanFunction~for~BDDFunction<F>/fn:not_edge props=C02
+//@header
+fn not_edge<M>(manager: &M, edge: &M::Edge) -> (res: AllocResult<M::Edge>)
+where M: Manager<Terminal = BDDTerminal> + HasApplyCache<M, BDDOp>, M::InnerNode: HasLevel,
+//@spec
+    requires edge_ok::<M::Edge>(), ok(edge.view(), manager.num_levels_spec()),
+    ensures res is Ok ==> ok(res->Ok_0.view(), manager.num_levels_spec())
+        && forall|env: Env| #[trigger] sem(res->Ok_0.view(), env) == !sem(edge.view(), env),
+//@end
+//@fn file=crates/oxidd-rules-bdd/src/simple/apply_rec.rs path=impl:BooleanFunction~for~BDDFunction<F>/fn:ite_edge props=C02
+//@header
+fn ite_edge<M>(manager: &M, if_edge: &M::Edge, then_edge: &M::Edge, else_edge: &M::Edge) -> (res: AllocResult<M::Edge>)
+where M: Manager<Terminal = BDDTerminal> + HasApplyCache<M, BDDOp>, M::InnerNode: HasLevel,
+//@spec
+    requires edge_ok::<M::Edge>(), ok(if_edge.view(), manager.num_levels_spec()), ok(then_edge.view(), manager.num_levels_spec()), ok(else_edge.view(), manager.num_levels_spec()),
+    ensures res is Ok ==> ok(res->Ok_0.view(), manager.num_levels_spec())
+        && forall|env: Env| #[trigger] sem(res->Ok_0.view(), env) == (if sem(if_edge.view(), env) { sem(then_edge.view(), env) } else { sem(else_edge.view(), env) }),
+//@end
+//@fn file=crates/oxidd-rules-bdd/src/simple/apply_rec.rs path=impl:BooleanFunction~for~BDDFunction<F>/fn:var_edge props=C02,C03
+//@header
+fn var_edge<M>(manager: &M, var: VarNo) -> (res: AllocResult<M::Edge>)
+where M: Manager<Terminal = BDDTerminal> + HasApplyCache<M, BDDOp>, M::InnerNode: HasLevel,
+//@spec
+    requires (var as int) < manager.num_levels_spec(),
+    ensures res is Ok ==> ok(res->Ok_0.view(), manager.num_levels_spec())
+        && forall|env: Env| #[trigger] sem(res->Ok_0.view(), env) == env(manager.var_to_level_spec(var as int)),
+//@end
+//@fn file=crates/oxidd-rules-bdd/src/simple/apply_rec.rs path=impl:BooleanFunction~for~BDDFunction<F>/fn:not_var_edge props=C02,C03
+//@header
+fn not_var_edge<M>(manager: &M, var: VarNo) -> (res: AllocResult<M::Edge>)
+where M: Manager<Terminal = BDDTerminal> + HasApplyCache<M, BDDOp>, M::InnerNode: HasLevel,
+//@spec
+    requires (var as int) < manager.num_levels_spec(),
+    ensures res is Ok ==> ok(res->Ok_0.view(), manager.num_levels_spec())
+        && forall|env: Env| #[trigger] sem(res->Ok_0.view(), env) == !env(manager.var_to_level_spec(var as int)),
+//@end
+//@fn file=crates/oxidd-rules-bdd/src/simple/apply_rec.rs path=impl:BooleanFunction~for~BDDFunction<F>/fn:f_edge props=C02
+//@header
+fn f_edge<M>(manager: &M) -> (res: M::Edge)
+where M: Manager<Terminal = BDDTerminal> + HasApplyCache<M, BDDOp>, M::InnerNode: HasLevel,
+//@spec
+    ensures res.view() == Tree::Leaf(false),
+//@end
+//@fn file=crates/oxidd-rules-bdd/src/simple/apply_rec.rs path=impl:BooleanFunction~for~BDDFunction<F>/fn:t_edge props=C02
+//@header
+fn t_edge<M>(manager: &M) -> (res: M::Edge)
+where M: Manager<Terminal = BDDTerminal> + HasApplyCache<M, BDDOp>, M::InnerNode: HasLevel,
+//@spec
+    ensures res.view() == Tree::Leaf(true),
+//@end
+//@fn file=crates/oxidd-rules-bdd/src/simple/apply_rec.rs path=impl:BooleanFunction~for~BDDFunction<F>/fn:eval_edge/fn:inner rename=eval_edge__inner ret=r props=C02
+//@spec
+    requires wf(edge.view()),
+    ensures r == sem(edge.view(), |l: int| !choices.spec_contains(l)),
+    decreases edge.view(),
+//@end
 } // mod apply_rec
+} // mod simple
 } // verus!
 fn main() {}
